@@ -89,6 +89,15 @@ Theorem C12_custom_parses_own_output : forall (norm : cust -> string -> option s
 Proof. exact custom_parses_own_output. Qed.
 Print Assumptions C12_custom_parses_own_output.
 
+(** Whatever the parser returns for an atomic field type is a valid instance value
+    (the premise [wtb] is met by every parser output) and is a fixed point. *)
+Theorem C12_parsed_atoms_valid : forall (norm : cust -> string -> option string),
+  (forall c s s', norm c s = Some s' -> norm c s' = Some s') ->
+  forall t j v, atomic t = true -> parse norm t j = Some v ->
+  wtb norm t v = true /\ omitsb t v = true /\ parse norm t (dump t v) = Some v.
+Proof. exact parsed_atoms_valid. Qed.
+Print Assumptions C12_parsed_atoms_valid.
+
 (** The pinned tree (no dynamic encoders on schema classes) is refuted by a valid
     instance holding a duration: it has no serialisation, while the repaired dump
     round-trips; the two dumps agree on instances without custom-type values. *)
